@@ -32,9 +32,22 @@ enum CP {
     SpawnFuture,
     SleepOrder,
     DropHandleThenJoinNever,
+    /// a join future is polled once (pending) and dropped: does the task survive?
+    DropPendingJoin,
 }
 
-const ALL: [CP; 9] = [CP::Join, CP::JoinTwice, CP::DropHandle, CP::Detach, CP::PanicJoin, CP::ErrJoin, CP::SpawnFuture, CP::SleepOrder, CP::DropHandleThenJoinNever];
+const ALL: [CP; 10] = [
+    CP::Join,
+    CP::JoinTwice,
+    CP::DropHandle,
+    CP::Detach,
+    CP::PanicJoin,
+    CP::ErrJoin,
+    CP::SpawnFuture,
+    CP::SleepOrder,
+    CP::DropHandleThenJoinNever,
+    CP::DropPendingJoin,
+];
 
 fn ms(t: u64) -> Duration {
     Duration::from_millis(t)
@@ -113,6 +126,26 @@ async fn run_cp(cp: CP) -> String {
             });
             sleep(90).await;
             format!("first={}", order.load(Ordering::SeqCst))
+        }
+        CP::DropPendingJoin => {
+            let (tx, rx) = futures::channel::oneshot::channel::<()>();
+            let f3 = flag.clone();
+            let mut h = <DefaultSpawner as Spawner<P>>::spawn_actor(async move {
+                let _ = rx.await;
+                f3.store(true, Ordering::SeqCst);
+                Ok(P::new(0))
+            });
+            sleep(5).await;
+            let mut j = h.join();
+            // two polls: the first may only get as far as the handle's lock
+            let _ = futures::poll!(j.as_mut());
+            let first = futures::poll!(j.as_mut()).is_ready();
+            drop(j);
+            sleep(20).await;
+            let _ = tx.send(());
+            sleep(20).await;
+            let again = h.join().await.is_some();
+            format!("ready-at-once={first} completed-after-join-dropped={} later-join={again}", flag.load(Ordering::SeqCst))
         }
         CP::DropHandleThenJoinNever => {
             // an actor-like task that only ends when told to: does dropping the handle end it?
